@@ -1060,6 +1060,10 @@ func flattenAnd(e ast.Expr) []ast.Expr {
 // address of.
 func (e *enumerator) invariantFlag(c ast.Expr, loop *ast.ForStmt) bool {
 	c = ast.Unparen(c)
+	// (a || b), (a && b) of such locals
+	if be, ok := c.(*ast.BinaryExpr); ok && (be.Op == token.LOR || be.Op == token.LAND) {
+		return e.invariantFlag(be.X, loop) && e.invariantFlag(be.Y, loop)
+	}
 	for {
 		u, ok := c.(*ast.UnaryExpr)
 		if !ok || u.Op != token.NOT {
